@@ -1351,8 +1351,8 @@ def check_c17(ix, cfg):
             only_silence = _under_branch(pos) and not first and _concurrent_done(ix, pos, done, parent)
             nxt = None
             for m in range(n + 1, min(len(trace), n + 400)):
-                if trace[m]["t"] == e["t"] and trace[m]["i"] == inv:
-                    nxt = trace[m]
+                if trace[m]["t"] == e["t"] and trace[m]["i"] == inv and trace[m]["k"] not in ("stall", "sdk-call", "sdk-ret"):
+                    nxt = trace[m]  # (observation-only records may sit between the call and what the logger emitted)
                     break
             if nxt is None:
                 continue  # the invocation was killed inside the log call: nothing to judge
